@@ -374,6 +374,26 @@ class Intervals:
                   'trunc', 'round') and not ce.get('inrepo'):
             if any(v is r for v in vals):
                 r = Iv(r.lo, r.hi, r.tlo, r.thi, r.free, r.isint, r.rel, r.srcs, r.nan, r.ub)
+            if nm in ('min', 'fmin', 'max', 'fmax') and len(vals) == 2:
+                # NaN: fmin/fmax return the other operand, so the result is NaN only if both are;
+                # std::min(a, b) = (b < a) ? b : a and std::max(a, b) = (a < b) ? b : a return a whenever
+                # either operand is NaN.  The operand that is returned in that case widens the range.
+                a, b = vals
+                if nm in ('fmin', 'fmax'):
+                    if a.nan:
+                        r = hull(r, Iv(b.lo, b.hi, False, False, False, b.isint, b.rel, b.srcs))
+                    if b.nan:
+                        r = hull(r, Iv(a.lo, a.hi, False, False, False, a.isint, a.rel, a.srcs))
+                    r.nan = a.nan and b.nan
+                else:
+                    if b.nan:
+                        r = hull(r, Iv(a.lo, a.hi, False, False, False, a.isint, a.rel, a.srcs))
+                    r.nan = a.nan
+                r.inf = (a.inf or b.inf) and not (math.isfinite(r.lo) and math.isfinite(r.hi))
+                if a.ub or b.ub:
+                    r.ub = True
+                    r.ubat = a.ubat or b.ubat
+                return r
             r.fl(*vals)
             if nm in ('fmod', 'remainder') and vals and not vals[0].finite:
                 r.nan = True
@@ -575,6 +595,13 @@ class Intervals:
             return a
         return {k: hull(a[k], b[k]) for k in set(a) & set(b)}
 
+    INT_BOUNDS = {'int': (-2.0 ** 31, 2.0 ** 31 - 1), 'unsigned int': (0.0, 2.0 ** 32 - 1), 'short': (-32768.0, 32767.0),
+                  'long': (-2.0 ** 63, 2.0 ** 63), 'long long': (-2.0 ** 63, 2.0 ** 63),
+                  'unsigned long': (0.0, 2.0 ** 64), 'unsigned long long': (0.0, 2.0 ** 64), 'bool': (0.0, 1.0)}
+
+    def int_type_bounds(self, t):
+        return self.INT_BOUNDS.get(t.replace('const ', '').strip())
+
     def refine_cmp(self, l, op, r, env, clears_nan=False):
         fn = self.fn
         env = dict(env)
@@ -608,6 +635,12 @@ class Intervals:
             if key is None:
                 continue
             rv = self.ev(rhs, env)
+            if not (math.isfinite(rv.lo) and math.isfinite(rv.hi)) and not rv.nonfinite:
+                # an expression of integer type is bounded by its type even when nothing else is known about it
+                # (`tn < _nNmodels - 1` bounds tn: it is then neither +inf nor NaN)
+                tb = self.int_type_bounds(fn.nodes[fn.strip_casts(rhs)].get('t', ''))
+                if tb is not None:
+                    rv = Iv(max(rv.lo, tb[0]), min(rv.hi, tb[1]), False, False, False, True, rv.rel, rv.srcs)
             cur = env.get(key, TOP())
             isint = cur.isint
             lo, hi, tlo, thi = cur.lo, cur.hi, cur.tlo, cur.thi
